@@ -3,3 +3,4 @@ import ArimModel.MinPlus
 import ArimModel.Fermat
 import ArimModel.Chunk
 import ArimModel.Frame
+import ArimModel.Config
